@@ -137,6 +137,10 @@ PRATT_POOL = {
     "call": ("cat", [("ref", "e"), ("ref", "args")]),
     "nullop": ("cat", [("ref", "e"), ("opt", ("tok", "V")), ("tok", "Z")]),
     "starop": ("cat", [("ref", "e"), ("star", ("tok", "V")), ("tok", "Z")]),
+    # primaries with a nullable tail: their follow is the follow of the rule, which grows through the
+    # rule's own self references only
+    "litopt": ("cat", [("tok", "I"), ("opt", ("tok", "V"))]),
+    "litstar": ("cat", [("tok", "J"), ("star", ("tok", "V"))]),
 }
 ARGS_RULE = ("args", ("cat", [("tok", "L"), ("opt", ("cat", [("ref", "e"), ("star", ("cat", [("tok", "K"), ("ref", "e")]))])), ("tok", "R")]))
 PRATT_STARTS = {
@@ -155,7 +159,7 @@ def pratt_family(rng, cap):
     for r in (1, 2, 3):
         combos += list(itertools.combinations(names, r))
     rng.shuffle(combos)
-    special = [("nullop",), ("starop",), ("nullop", "add"), ("midop", "add"), ("tern", "post"), ("neg", "post"), ("index", "mul")]
+    special = [("litopt", "add"), ("litopt", "mul", "paren"), ("litstar", "add", "paren"), ("nullop",), ("starop",), ("nullop", "add"), ("midop", "add"), ("tern", "post"), ("neg", "post"), ("index", "mul")]
     combos = special + [c for c in combos if c not in special]
     for combo in combos:
         if not any(PRATT_POOL[c][1][0] == ("ref", "e") or (PRATT_POOL[c][1][0][0] == "pred") for c in combo):
@@ -182,6 +186,35 @@ def pratt_family(rng, cap):
                 out.append(dict(g, name=g["name"] + "_rev", rules=list(reversed(g["rules"]))))
             if len(out) >= cap:
                 return out
+    return out
+
+
+def selfref_family():
+    """Rules that refer to themselves and have a nullable tail, declared strictly top-down (no rule
+    refers to an earlier one): the follow of the tail grows only through the self references."""
+    T = lambda x: ("tok", x)
+    R = lambda x: ("ref", x)
+    cat = lambda *xs: ("cat", list(xs))
+    alt = lambda *xs: ("alt", list(xs))
+    opt = lambda x: ("opt", x)
+    star = lambda x: ("star", x)
+    specs = [
+        ("mid_opt", [("s", cat(R("x"), T("D"))), ("x", alt(cat(T("L"), R("x"), T("R")), cat(T("A"), opt(T("B")))))]),
+        ("opt_first", [("s", cat(R("x"), T("D"))), ("x", alt(cat(T("A"), opt(T("B"))), cat(T("L"), R("x"), T("R"))))]),
+        ("mid_star", [("s", R("x")), ("x", alt(cat(T("L"), R("x"), T("R"), T("C")), cat(T("A"), star(T("B")))))]),
+        ("two_level", [("s", cat(R("x"), T("D"))), ("x", alt(cat(T("L"), R("y"), T("R")), T("C"))), ("y", cat(T("A"), opt(T("B")), opt(R("y"))))]),
+        ("right_rec", [("s", R("x")), ("x", alt(cat(T("A"), opt(T("B")), T("C"), R("x")), T("D")))]),
+        ("pratt_opt", [("s", R("x")), ("x", alt(cat(R("x"), T("P"), R("x")), cat(R("x"), T("M"), R("x")), cat(T("N"), opt(T("V"))), cat(T("L"), R("x"), T("R"))))]),
+        ("pratt_opt_wrapped", [("s", cat(T("L"), R("x"), T("R"))), ("x", alt(cat(T("N"), star(T("V"))), cat(R("x"), T("P"), R("x"))))]),
+    ]
+    out = []
+    for nm, rules in specs:
+        toks = []
+        for _, b in rules:
+            for l in G.leaves_of(b):
+                if l[0] == "tok" and l[1] not in toks:
+                    toks.append(l[1])
+        out.append(G.mk("selfref_" + nm, toks, rules))
     return out
 
 
@@ -332,6 +365,7 @@ def collect(tier, need_recovery=False, big_files=True, max_nodes=None):
         gens += pratt_family(rng, 250)
         gens += pred_family()
         gens += parts_family()
+        gens += selfref_family()
         gens += randoms(rng, 300)
     else:
         gens += enumerated(6)
@@ -340,6 +374,7 @@ def collect(tier, need_recovery=False, big_files=True, max_nodes=None):
         gens += pratt_family(rng, 2500)
         gens += pred_family()
         gens += parts_family()
+        gens += selfref_family()
         gens += randoms(rng, 5000)
     texts = [{"name": g["name"], "text": G.render(g), "origin": "generated"} for g in gens]
     for f in file_sources():
